@@ -19,6 +19,7 @@
      well; its locals are gone with the body;
    * replace_import_in_module redirects the import's handle to the built function: the builder's name if one was
      set (a naming call), otherwise the name the handle had, or the import's field name the API assigns;
+     a name a conversion gave stays acceptable through later conversions, until the next naming call on the handle;
    * a panic of a naming call on a live handle is a failure of the property (the name is not attached). *)
 From Coq Require Import List Arith NArith Bool Lia.
 Import ListNotations.
@@ -84,7 +85,8 @@ Definition agree (c : ncase) : bool :=
 Record nspec := mkSp {
   sp_s : sstate;
   sp_fn : nmap;       (* function handle -> the name attached to it (input / latest naming call) *)
-  sp_alt : nmap;      (* function handle -> the name the conversion API itself gave it (accepted, not required) *)
+  sp_alt : nmap;      (* function handle -> the names the conversion API itself gave it, one entry per conversion since the
+                         last naming call (accepted, not required) *)
   sp_ln : imap;       (* function handle -> names of its locals *)
   sp_gn : nmap;       (* global handle -> name *)
   sp_ok : bool;       (* false: a naming call used something that is not a live handle: outside the domain *)
@@ -117,7 +119,7 @@ Definition nspec_step (s : nspec) (o : nop) (ret : option N) : nspec :=
       | LocalToImport id fp =>
           match live_ent (ss_f st) id with
           | Some en => if en_imp en then s'                                 (* refused: already an import *)
-                       else mkSp st' (sp_fn s) (nset (sp_alt s) id (tok_import fp)) (idel (sp_ln s) id) (sp_gn s) (sp_ok s) (sp_ret s)
+                       else mkSp st' (sp_fn s) ((id, tok_import fp) :: sp_alt s) (idel (sp_ln s) id) (sp_gn s) (sp_ok s) (sp_ret s)
           | None => s'
           end
       | ImportToLocal k fp =>
@@ -129,7 +131,7 @@ Definition nspec_step (s : nspec) (o : nop) (ret : option N) : nspec :=
                   else if en_imp en then
                     match bname with
                     | Some t => mkSp st' (nset (sp_fn s) fid t) (ndel (sp_alt s) fid) (idel (sp_ln s) fid) (sp_gn s) (sp_ok s) (sp_ret s)
-                    | None => mkSp st' (sp_fn s) (nset (sp_alt s) fid (tok_import (en_fp en))) (idel (sp_ln s) fid) (sp_gn s) (sp_ok s) (sp_ret s)
+                    | None => mkSp st' (sp_fn s) ((fid, tok_import (en_fp en)) :: sp_alt s) (idel (sp_ln s) fid) (sp_gn s) (sp_ok s) (sp_ret s)
                     end
                   else s'
               | None => s'
@@ -209,19 +211,15 @@ Definition out_handle (s : sstate) (e : emod) (x : sp) (q : N) : option N :=
 Fixpoint nodup_keys {B} (m : list (N * B)) : bool :=
   match m with [] => true | (k, _) :: m' => negb (existsb (fun kv => N.eqb (fst kv) k) m') && nodup_keys m' end.
 
-Definition tok_allowed (t : N) (a b : option N) : bool :=
-  match a, b with
-  | Some x, Some y => N.eqb t x || N.eqb t y
-  | Some x, None => N.eqb t x
-  | None, Some y => N.eqb t y
-  | None, None => false
-  end.
+Definition tok_allowed (t : N) (a : option N) (alts : nmap) (h : N) : bool :=
+  (match a with Some x => N.eqb t x | None => false end)
+  || existsb (fun kv => N.eqb (fst kv) h && N.eqb (snd kv) t) alts.
 
 (* function names: soundness, retention *)
 Definition fn_sound (s : nspec) (e : emod) (out : nmap) : bool :=
   nodup_keys out &&
   forallb (fun qt => match out_handle (sp_s s) e SF (fst qt) with
-                     | Some h => tok_allowed (snd qt) (lookup (sp_fn s) h) (lookup (sp_alt s) h)
+                     | Some h => tok_allowed (snd qt) (lookup (sp_fn s) h) (sp_alt s) h
                      | None => false
                      end) out.
 Definition has_entry {B} (s : sstate) (e : emod) (x : sp) (out : list (N * B)) (h : N) : bool :=
@@ -295,22 +293,6 @@ Definition d25_at (s : nst) (o : nop) : bool :=
       end
   | _ => false
   end.
-(* D21 (c): convert_local_fn_to_import of a named function: the new import entry has custom_name None *)
-Definition d21c_at (s : nst) (o : nop) : bool :=
-  match o with
-  | NEdit (LocalToImport id _) _ =>
-      match item_at s id with
-      | Some it => is_local it && match lookup (ns_body s) id with Some _ => true | None => false end
-      | None => false
-      end
-  | _ => false
-  end.
-(* 202: imports.set_name on a global import is never emitted (custom_name is only read for function imports) *)
-Definition c202_at (s : nst) (o : nop) : bool :=
-  match o with
-  | NImpSetName k _ => match nthN (m_imports (ns_m s)) k with Some im => N.eqb (i_sp im) 1 && negb (i_del im) | None => false end
-  | _ => false
-  end.
 Fixpoint hist_any (p : nst -> nop -> bool) (s : nst) (h : list nop) : bool :=
   match h with
   | [] => false
@@ -318,23 +300,12 @@ Fixpoint hist_any (p : nst -> nop -> bool) (s : nst) (h : list nop) : bool :=
   end.
 Definition hist_class (p : nst -> nop -> bool) (c : ncase) : bool :=
   match init_state c with Ok s0 => hist_any p s0 (nh_ops c) | Panic _ => false end.
-Definition final_nst (c : ncase) : option nst :=
-  match init_state c with Ok s0 => Some (fst (fst (nrun_pref s0 (nh_ops c) []))) | Panic _ => None end.
-Definition map_of (c : ncase) (x : sp) : list (N * N) :=
-  match final_nst c with
-  | Some s => match index_space (get_sp (ns_m s) x) with Ok (_, m) => m | Panic _ => [] end
-  | None => []
-  end.
-Definition moved_in (m : list (N * N)) (id : N) : bool := negb (optN_eqb (lookup m id) (Some id)).
-(* D21 (a) the global map keeps the parsed indices although a named global moved or was deleted;
-       (b) the local map keeps the parsed function indices although such a function moved, was deleted or converted *)
-Definition known_D21a (c : ncase) : bool := existsb (fun kv => moved_in (map_of c SG) (fst kv)) (n_globals (nb_names c)).
-Definition is_l2i_of (id : N) (o : op) := match o with LocalToImport id' _ => N.eqb id id' | _ => false end.
-Definition known_D21b (c : ncase) : bool :=
-  existsb (fun kv => moved_in (map_of c SF) (fst kv) || existsb (is_l2i_of (fst kv)) (edits (nh_ops c))) (n_locals (nb_names c)).
-Definition known_D21 (c : ncase) : bool := known_D21a c || known_D21b c || hist_class d21c_at c.
+(* D21 (the local / global name maps were written back with the parsed indices; a converted function lost its name)
+   is repaired: the maps follow their entities through the id maps, convert_local_fn_to_import hands the function's
+   name to the new import entry; class 21 is gone. *)
 Definition known_D25 (c : ncase) : bool := hist_class d25_at c.
-Definition known_202 (c : ncase) : bool := hist_class c202_at c.
+(* 202 (imports.set_name on a global import never reached the name section) is repaired: the global map takes the custom
+   name of an emitted global import at the import's global index; class 202 is gone. *)
 (* D06 / D26 (index-space defects of C06 / C09: a deleted item survived in the function / global vector, so the
    vector position under which a body name is emitted was not the entity's index) are repaired: recalculate_ids
    drops every deleted item; the classes 6 and 26 are gone. *)
@@ -350,7 +321,7 @@ Definition explain (failed : bool) (c : ncase) (cands : list (N * (ncase -> bool
 Fixpoint dedupN (l : list N) : list N :=
   match l with [] => [] | x :: l' => if existsb (N.eqb x) l' then dedupN l' else x :: dedupN l' end.
 Definition all_classes : list (N * (ncase -> bool)) :=
-  [(21, known_D21); (25, known_D25); (202, known_202)].
+  [(25, known_D25)].
 Definition failing_classes (c : ncase) : list N :=
   let s := fst (nspec_final c) in
   explain (naming_panic c) c []
@@ -359,10 +330,10 @@ Definition failing_classes (c : ncase) : list N :=
      | None => []
      | Some (e, n) =>
          explain (negb (fn_sound s e (n_funcs n))) c [(25, known_D25)]
-         ++ explain (negb (fn_kept s e (n_funcs n))) c [(21, hist_class d21c_at); (25, known_D25)]
-         ++ explain (negb (ln_sound s e (n_locals n) && ln_kept s e (n_locals n))) c [(21, known_D21b)]
-         ++ explain (negb (gn_sound s e (n_globals n))) c [(21, known_D21a); (202, known_202)]
-         ++ explain (negb (gn_kept s e (n_globals n))) c [(21, known_D21a); (202, known_202)]
+         ++ explain (negb (fn_kept s e (n_funcs n))) c [(25, known_D25)]
+         ++ explain (negb (ln_sound s e (n_locals n) && ln_kept s e (n_locals n))) c []
+         ++ explain (negb (gn_sound s e (n_globals n))) c []
+         ++ explain (negb (gn_kept s e (n_globals n))) c []
      end.
 
 Definition verdict29 (c : ncase) : Util.verdict :=
